@@ -9,11 +9,20 @@ def jobs(tier):
             J.append(job(alg, n, checks=ck))
     for alg in ('cdec', 'c23', 'c34'):
         J.append(job(alg, 5, checks=ck)); J.append(job(alg, 6, checks=ck, order='desc')); J.append(job(alg, 7, checks=ck, order='desc'))
+    # tier C: 17-24 items taking one, two or three distinct symbolic values (the 3/4*OPT - 4 clause only bites once OPT >= 6)
+    for g in ([18], [20], [1, 16], [2, 16], [1, 17]):
+        J.append(job('c34', sum(g), checks=ck, order='desc', groups=g))
+    for g in ([12], [2, 10]):
+        J.append(job('cdec', sum(g), checks=ck, order='desc', groups=g)); J.append(job('c23', sum(g), checks=ck, order='desc', groups=g))
     if tier == 'thorough':
+        for g in ([24], [1, 20], [3, 15], [9, 9], [1, 1, 16], [16, 1], [16, 2]):
+            J.append(job('c34', sum(g), checks=ck, order='desc', groups=g, mandatory=False))
+        for g in ([16], [8, 8], [1, 2, 9]):
+            J.append(job('cdec', sum(g), checks=ck, order='desc', groups=g, mandatory=False)); J.append(job('c23', sum(g), checks=ck, order='desc', groups=g, mandatory=False))
         for alg in ('cdec', 'c23', 'c34'):
             J.append(job(alg, 8, checks=ck, order='desc', mandatory=False)); J.append(job(alg, 6, checks=ck, mandatory=False))
     return J
 
 
 ASSUMPTIONS = ['S1 numpy shim', 'S2 exact arithmetic', 'OPT from the expansion oracle over all assignments']
-OUTSIDE = ['more than 7 (quick) / 8 (thorough) items', 'planted instances with hundreds of items', 'published worst-case families (13-26 items)']
+OUTSIDE = ['more than 7 (quick) / 8 (thorough) items with pairwise independent values; more than 20 (quick) / 24 (thorough) items with at most three distinct values', 'planted instances with hundreds of items', 'published worst-case families (13-26 items)']
